@@ -338,8 +338,12 @@ theorem dispatch_frame (ca : Ca) (child : Handle) (c : ChildRec) (pl : Payload) 
     | none => exact same _ rfl
     | some res =>
       simp only
-      by_cases hu : c.inUse.any (·.1 == key) = true
-      · simp only [hu, if_true]
+      by_cases hu2 : c.inUse.any (fun ku => ku.1 == key && ku.2 == cls) = true
+      · have hu : c.inUse.any (·.1 == key) = true := by
+          obtain ⟨ku, hku, hk⟩ := List.any_eq_true.mp hu2
+          simp only [Bool.and_eq_true] at hk
+          exact List.any_eq_true.mpr ⟨ku, hku, hk.1⟩
+        simp only [hu2, if_true]
         refine ⟨by first | rfl | trivial, by first | rfl | trivial, by first | rfl | trivial,
           fun h hne => lookup_update_ne _ _ _ _ hne, ?_, ?_, ?_, ?_⟩
         · intro ce hce; left; exact ((mem_removeKey _ _ _).mp hce).1
@@ -355,12 +359,12 @@ theorem dispatch_frame (ca : Ca) (child : Handle) (c : ChildRec) (pl : Payload) 
           by_cases hk : s.key = key ∧ s.cls = cls
           · right; simp [Payload.key?, hk.1]
           · left; exact (mem_removeSusp _ _ _ _).mpr ⟨hs, hk⟩
-      · have huf : c.inUse.any (·.1 == key) = false := by
-          cases hx : c.inUse.any (·.1 == key) with
-          | true => exact absurd hx hu
+      · have huf : c.inUse.any (fun ku => ku.1 == key && ku.2 == cls) = false := by
+          cases hx : c.inUse.any (fun ku => ku.1 == key && ku.2 == cls) with
+          | true => exact absurd hx hu2
           | false => rfl
         simp only [huf, Bool.false_eq_true, if_false]
-        split <;>
+        split <;> (try split) <;>
         (refine ⟨?_, ?_, ?_, ?_, ?_, ?_, ?_, ?_⟩ <;>
           first | rfl | trivial | (intro _ _; rfl) | (intro _ _; trivial) | (intro s h; exact h) |
             (intro ce h; exact Or.inl h))
@@ -373,7 +377,8 @@ def ReplyFor (ca ca' : Ca) (child : Handle) (c : ChildRec) : Payload → Payload
       lookup ca.classes cls = some res ∧ subset grant c.resources = true ∧ subset grant res = true
   | .revoke cls key, rp =>
     rp = .revokeResponse cls key ∧
-      ((lookup ca.classes cls = none ∧ ca' = ca) ∨ c.inUse.any (·.1 == key) = true ∨
+      ((lookup ca.classes cls = none ∧ ca' = ca) ∨
+        c.inUse.any (fun ku => ku.1 == key && ku.2 == cls) = true ∨
         (c.revoked.contains key = true ∧ ca' = ca))
   | _, _ => False
 
@@ -420,14 +425,16 @@ theorem dispatch_reply (ca : Ca) (child : Handle) (c : ChildRec) (pl rp : Payloa
       exact ⟨h.2.symm, Or.inl ⟨hc, h.1.symm⟩⟩
     | some res =>
       simp only [hc] at h
-      cases hu : c.inUse.any (·.1 == key) with
+      cases hu : c.inUse.any (fun ku => ku.1 == key && ku.2 == cls) with
       | false =>
         simp only [hu, Bool.false_eq_true, if_false] at h
         split at h
-        · rename_i hrev
-          simp only [Prod.mk.injEq, Option.some.injEq] at h
-          exact ⟨h.2.symm, Or.inr (Or.inr ⟨hrev, h.1.symm⟩)⟩
         · simp at h
+        · split at h
+          · rename_i hrev
+            simp only [Prod.mk.injEq, Option.some.injEq] at h
+            exact ⟨h.2.symm, Or.inr (Or.inr ⟨hrev, h.1.symm⟩)⟩
+          · simp at h
       | true =>
         simp only [hu, if_true, Prod.mk.injEq, Option.some.injEq] at h
         exact ⟨h.2.symm, Or.inr (Or.inl hu)⟩
@@ -748,13 +755,13 @@ theorem dispatch_child_rec (ca : Ca) (child : Handle) (c : ChildRec) (pl : Paylo
     | none => exact same
     | some res =>
       simp only
-      cases hu : c.inUse.any (·.1 == key) with
+      cases hu : c.inUse.any (fun ku => ku.1 == key && ku.2 == cls) with
       | true =>
         simp only [if_true]
         exact ⟨_, lookup_update_eq ca.children child _ c hl, rfl, rfl, rfl⟩
       | false =>
         simp only [Bool.false_eq_true, if_false]
-        split <;> exact same
+        split <;> (try split) <;> exact same
 
 /-- What an accepted delta consists of. -/
 theorem delta_accepted (p : Publisher) (els : List PElem) (h : els.findSome? (elemError p) = none) :
